@@ -101,9 +101,11 @@ Step ==
             /\ mpeak' = Max(mpeak, Cardinality(owners \cup {t}) + Cardinality(lids))   \* a forgotten guard stays live
             /\ UNCHANGED <<own, ofirst, ids, pend, expFrees, lids, on, lch>> /\ Report({})
       [] k = "create" ->
+            LET pk == Max(mpeak, Cardinality(owners \cup {t}) + Cardinality(lids)) IN   \* (t is an owner since its get_cs)
             /\ pend' = [pend EXCEPT ![t] = ev.arena]
-            /\ UNCHANGED <<own, ofirst, owners, mpeak, ids, expFrees, lids, on, lch>>
-            /\ Report(IF ReuseC(Cardinality(ids \cup PendIds(pend) \cup {ev.arena}), mpeak) THEN {} ELSE {"reuse"})
+            /\ owners' = owners \cup {t} /\ mpeak' = pk
+            /\ UNCHANGED <<own, ofirst, ids, expFrees, lids, on, lch>>
+            /\ Report(IF ReuseC(Cardinality(ids \cup PendIds(pend) \cup {ev.arena}), pk) THEN {} ELSE {"reuse"})
       [] k = "get_fail" ->
             /\ pend' = [pend EXCEPT ![t] = NoArena]
             /\ owners' = owners \ {t}
@@ -116,14 +118,19 @@ Step ==
                 excl   == /\ ExclusiveC(h) /\ ev.arena \notin lids
                           /\ \A u \in Threads : (u # t /\ own[u] # NoArena) => ofirst[u] # ev.obs.first
                           /\ ev.obs.a = ev.arena
-                reuse  == ReuseC(Cardinality(ids2 \cup PendIds(p2)), mpeak)
+                pk     == Max(mpeak, Cardinality(owners \cup {t}) + Cardinality(lids))
+                reuse  == ReuseC(Cardinality(ids2 \cup PendIds(p2)), pk)
                 intact == ev.damaged = <<>>
             IN
             /\ own' = [own EXCEPT ![t] = ev.arena]
             /\ ofirst' = [ofirst EXCEPT ![t] = ev.obs.first]
             /\ pend' = p2 /\ ids' = ids2
             /\ on' = [on EXCEPT ![t] = ev.obs.n]
-            /\ UNCHANGED <<owners, mpeak, expFrees, lids, lch>>
+            \* normally t became an owner at its get_cs; if that hook event is missing (a get path that bypasses the
+            \* instrumented lock) the guard in hand still makes t an owner -- never undercount the peak
+            /\ owners' = owners \cup {t}
+            /\ mpeak' = pk
+            /\ UNCHANGED <<expFrees, lids, lch>>
             /\ Report((IF excl THEN {} ELSE {"exclusive"}) \cup (IF reuse THEN {} ELSE {"reuse"})
                       \cup (IF intact THEN {} ELSE {"intact"}))
       [] k = "use" ->
@@ -132,6 +139,10 @@ Step ==
             /\ Report((IF ev.damaged = <<>> THEN {} ELSE {"intact"})
                       \cup (IF ev.arena = own[t] /\ ev.obs.a = ev.arena THEN {} ELSE {"exclusive"}))
       [] k = "drop_cs" ->
+            /\ own' = [own EXCEPT ![t] = NoArena] /\ ofirst' = [ofirst EXCEPT ![t] = 0]
+            /\ owners' = owners \ {t}
+            /\ UNCHANGED <<mpeak, ids, pend, expFrees, lids, on, lch>> /\ Report({})
+      [] k \in {"drop_post", "drop_done"} ->   \* ownership has ended at the latest now (also if the drop_cs hook event is missing)
             /\ own' = [own EXCEPT ![t] = NoArena] /\ ofirst' = [ofirst EXCEPT ![t] = 0]
             /\ owners' = owners \ {t}
             /\ UNCHANGED <<mpeak, ids, pend, expFrees, lids, on, lch>> /\ Report({})
